@@ -1,6 +1,7 @@
 package eng
 
 import (
+	"go/token"
 	"runtime/debug"
 	"encoding/json"
 	"fmt"
@@ -576,6 +577,9 @@ func RunCheck(opts *CheckOpts) int {
 			continue
 		}
 		r.Obligations = g.Obls
+		if c.HasErrorsFrom {
+			g.Obls = append(g.Obls, errorsFromObligations(prog, g, fn, k, c)...)
+		}
 		if obs, err := exhaustiveObligations(g, g.cfg, k, c); err != "" {
 			r.Err = err
 			continue
@@ -1868,4 +1872,143 @@ func exhaustiveObligations(g *Gen, cfg *CFG, k string, c *Contract) ([]*Obligati
 		}
 	}
 	return out, ""
+}
+
+
+// errorsFromObligations: structural obligation of an `errorsfrom` clause. Every error
+// operand of every return statement is traced back through phis, local cells and the
+// wrapping functions of pkg/errors and multierr; it must end in nil, in the result of a
+// call of a named callee, or in the result of a callee that has an errorsfrom clause of
+// its own. Anything else (a package-level error value, errors.New, fmt.Errorf, another
+// call) fails the obligation at that return.
+func errorsFromObligations(prog *Program, g *Gen, fn *ssa.Function, key string, c *Contract) []*Obligation {
+	allowed := map[string]bool{}
+	for _, n := range c.ErrorsFrom {
+		allowed[n] = true
+	}
+	isErr := func(t types.Type) bool { return isErrorType(t) }
+	wrappers := map[string]bool{"Wrap": true, "Wrapf": true, "WithMessage": true, "WithMessagef": true, "WithStack": true, "Combine": true, "Append": true}
+	var bad func(v ssa.Value, seen map[ssa.Value]bool) string
+	callOK := func(cc *ssa.CallCommon, seen map[ssa.Value]bool) string {
+		name := ""
+		if cc.IsInvoke() {
+			name = cc.Method.Name()
+		} else if f := cc.StaticCallee(); f != nil {
+			name = f.Name()
+			if f.Pkg != nil && (f.Pkg.Pkg.Path() == "github.com/pkg/errors" || f.Pkg.Pkg.Path() == "go.uber.org/multierr") && wrappers[name] {
+				for _, a := range cc.Args {
+					if isErr(a.Type()) {
+						if r := bad(a, seen); r != "" {
+							return r
+						}
+					}
+					// variadic errors (multierr.Combine): a slice built in place
+					if sl, ok := a.(*ssa.Slice); ok {
+						if al, ok := sl.X.(*ssa.Alloc); ok {
+							for _, ref := range *al.Referrers() {
+								if ia, ok := ref.(*ssa.IndexAddr); ok {
+									for _, r2 := range *ia.Referrers() {
+										if st, ok := r2.(*ssa.Store); ok && isErr(st.Val.Type()) {
+											if r := bad(st.Val, seen); r != "" {
+												return r
+											}
+										}
+									}
+								}
+							}
+						}
+					}
+				}
+				return ""
+			}
+			k2 := FuncKey(f)
+			if f.Origin() != nil {
+				k2 = FuncKey(f.Origin())
+			}
+			if cc2 := prog.ContractFor(k2); cc2 != nil && cc2.HasErrorsFrom {
+				return ""
+			}
+		}
+		if allowed[name] {
+			return ""
+		}
+		if name == "" {
+			return "a call through a function value"
+		}
+		return "a call of " + name
+	}
+	bad = func(v ssa.Value, seen map[ssa.Value]bool) string {
+		if seen[v] {
+			return ""
+		}
+		seen[v] = true
+		switch x := v.(type) {
+		case *ssa.Const:
+			if x.Value == nil {
+				return ""
+			}
+			return "a constant"
+		case *ssa.Phi:
+			for _, e := range x.Edges {
+				if r := bad(e, seen); r != "" {
+					return r
+				}
+			}
+			return ""
+		case *ssa.Call:
+			return callOK(&x.Call, seen)
+		case *ssa.Extract:
+			if call, ok := x.Tuple.(*ssa.Call); ok {
+				return callOK(&call.Call, seen)
+			}
+			return "a value of unknown origin"
+		case *ssa.MakeInterface:
+			return "a new error value"
+		case *ssa.ChangeInterface:
+			return bad(x.X, seen)
+		case *ssa.UnOp:
+			if x.Op == token.MUL {
+				if al, ok := x.X.(*ssa.Alloc); ok && al.Referrers() != nil {
+					for _, ref := range *al.Referrers() {
+						if st, ok := ref.(*ssa.Store); ok && st.Addr == al {
+							if r := bad(st.Val, seen); r != "" {
+								return r
+							}
+						}
+					}
+					return ""
+				}
+				if gl, ok := x.X.(*ssa.Global); ok {
+					return "the package-level value " + gl.Name()
+				}
+			}
+			return "a value of unknown origin"
+		case *ssa.Parameter:
+			return "the parameter " + x.Name()
+		}
+		return "a value of unknown origin"
+	}
+	var out []*Obligation
+	n := 0
+	for _, b := range fn.Blocks {
+		for _, in := range b.Instrs {
+			ret, ok := in.(*ssa.Return)
+			if !ok {
+				continue
+			}
+			for _, rv := range ret.Results {
+				if !isErr(rv.Type()) {
+					continue
+				}
+				if why := bad(rv, map[ssa.Value]bool{}); why != "" {
+					out = append(out, &Obligation{Name: fmt.Sprintf("%s#errorsfrom.%d", ShortKey(key), n), Kind: "errorsfrom", Fn: key, Clause: "errorsfrom " + strings.Join(c.ErrorsFrom, ", ") + ": the error returned here comes from " + why, Pos: g.pos(ret.Pos()), Reach: True, Goal: False, Gen: g})
+					n++
+				}
+			}
+		}
+	}
+	if n == 0 {
+		out = append(out, &Obligation{Name: ShortKey(key) + "#errorsfrom", Kind: "errorsfrom", Fn: key, Clause: "errorsfrom " + strings.Join(c.ErrorsFrom, ", ") + ": every returned error originates in a named callee", Reach: True, Goal: True, Gen: g})
+	}
+	return out
 }
